@@ -47,7 +47,7 @@ func verifLines(b []byte) [][]byte {
 func VerifH_C19_httpLines() {
 	n := 1 + vf.Choose("events", vf.Param("K", 3))
 	raw := vf.Choose("encoder", 2) == 1
-	p := &Plugin{config: &Config{BatchSize_: 4}, avgEventSize: 16, mu: &sync.Mutex{}}
+	p := &Plugin{config: &Config{BatchSize_: 4, SplitBatch: vf.Choose("split-batch", 2) == 1}, avgEventSize: 16, mu: &sync.Mutex{}}
 	if raw {
 		p.encoder = newRawEncoder(&RawEncoderParams{})
 	} else {
@@ -85,6 +85,9 @@ func VerifH_C19_httpLines() {
 	var wd pipeline.WorkerData
 	err := p.out(&wd, batch)
 	vf.Assert(err == nil, "send-succeeds")
+	if !iterable && len(verifBodies) == 0 {
+		return // nothing deliverable: no request is needed (split mode sends none)
+	}
 	vf.Assert(len(verifBodies) == 1, "one-request")
 	if len(verifBodies) != 1 {
 		return
